@@ -336,8 +336,11 @@ class GraphState:
 
         self.values[name] = value
 
-        # Only increment version if value actually changed
-        if is_new:
+        # Only increment version if value actually changed.
+        # Emit sentinels carry no data: every production is a fresh signal.
+        from hypergraph.nodes.base import _EMIT_SENTINEL
+
+        if is_new or value is _EMIT_SENTINEL:
             self.versions[name] = self.versions.get(name, 0) + 1
         else:
             # Defensive comparison for types like numpy arrays
